@@ -108,7 +108,7 @@ def build(u):
     u.ghost_callees["m:fail"] = "Tracked(g)"
     u.ghost_callees["m:add_htlc"] = "Tracked(g)"
     u.slice(h, hh, "htlc_manager::HtlcManager::handle_htlc#gate",
-            r"^if trampoline != payment_state\.trampoline", r"^payment_state\.add_htlc\(req, sender\)",
+            r"after:^let payment_state = payments", r"^payment_state\.add_htlc\(",
             "fn handle_htlc__gate(&self, req: &HtlcAcceptedRequest, trampoline: TrampolineInfo, forward_msat: u64, "
             "payment_state: &mut PaymentState, sender: oneshot::Sender<HtlcAcceptedResponse>, Tracked(g): Tracked<&mut G>)",
             note="slice handle_htlc#gate: free variables trampoline: TrampolineInfo, forward_msat: u64, payment_state: &mut PaymentState, "
